@@ -210,6 +210,8 @@ pub struct Dim {
     /// DIM x AS type (extended) vs DIM x% (compact)
     pub extended: bool,
     pub shared: bool,
+    /// 0 = DIM; 1 = REDIM in the same style as a DIM; 2 = short REDIM `REDIM name(bounds)` of an existing AS-typed dynamic array
+    pub redim: u8,
 }
 
 #[derive(Clone, Debug, PartialEq)]
@@ -217,8 +219,8 @@ pub enum Stmt {
     Assign(LValue, Expr),
     Print(Vec<PrintItem>),
     If { arms: Vec<(Expr, Vec<Stmt>)>, else_: Option<Vec<Stmt>> },
-    /// IF c THEN simple-statement [ELSE simple-statement] on one line
-    IfLine { cond: Expr, then_: Box<Stmt>, else_: Option<Box<Stmt>> },
+    /// IF c THEN simple-statements [ELSE simple-statements] on one line (each list non-empty, joined by colons)
+    IfLine { cond: Expr, then_: Vec<Stmt>, else_: Option<Vec<Stmt>> },
     Select { subject: Expr, cases: Vec<(Vec<CaseItem>, Vec<Stmt>)>, else_: Option<Vec<Stmt>> },
     For { var: LValue, from: Expr, to: Expr, step: Option<Expr>, body: Vec<Stmt>, next_names: bool },
     While { cond: Expr, body: Vec<Stmt> },
